@@ -70,12 +70,15 @@ def gen_case(rng):
     # textbook two-pass variance is exact there, shortcuts are not
     offs = [rng.choice(OFFSETS) if (vkinds[j] != "str" and rng.random() < 0.2) else None for j in range(nv)]
     cancel = [vkinds[j] == "float" and rng.random() < 0.15 for j in range(nv)]
+    special = [vkinds[j] == "float" and rng.random() < 0.12 for j in range(nv)]     # non-finite floats are non-None values too
     trace = [meta]
     for _ in range(nrows):
         keys = [None if rng.random() < p_knone else rng.choice(pools[c]) for c in range(nk)]
         vals = [None if rng.random() < p_vnone else V.pick_value(rng, vkinds[j], 0.0) for j in range(nv)]
         vals = [v if (v is None or offs[j] is None or isinstance(v, bool) or abs(v) > 1000) else offs[j] + v for j, v in enumerate(vals)]
         vals = [rng.choice(CANCEL) if (cancel[j] and v is not None) else v for j, v in enumerate(vals)]
+        vals = [rng.choice([float("nan"), float("inf"), float("-inf")]) if (special[j] and v is not None and rng.random() < 0.3) else v
+                for j, v in enumerate(vals)]
         trace.append({"op": "row", "k": V.enc_list(keys), "v": V.enc_list(vals)})
     return trace
 
@@ -105,6 +108,10 @@ def _model(fn, vals):
 def _close(a, b, fn):
     if a is None or b is None:
         return a is None and b is None
+    if isinstance(a, float) and isinstance(b, float) and (math.isnan(a) or math.isnan(b)):
+        return math.isnan(a) and math.isnan(b)
+    if isinstance(a, complex) or isinstance(b, complex):
+        return V.loose_eq(a, b)
     if fn in ("mean", "stdev"):
         try:
             return math.isclose(a, b, rel_tol=1e-9, abs_tol=1e-12)
